@@ -325,7 +325,7 @@ impl LuaEngine {
     }
     
     /// Handle command errors with proper Redis semantics
-    fn handle_command_error_with_context(_lua_ctx: &Lua, error_msg: String, is_pcall: bool) -> LuaResult<LuaValue> {
+    fn handle_command_error_with_context(lua_ctx: &Lua, error_msg: String, is_pcall: bool) -> LuaResult<LuaValue> {
         let formatted_error = if error_msg.starts_with("ERR ") {
             error_msg
         } else {
@@ -333,8 +333,11 @@ impl LuaEngine {
         };
         
         if is_pcall {
-            // redis.pcall: Return nil, script continues
-            Ok(LuaValue::Nil)
+            // redis.pcall: the error comes back as a table with an err field (which converts to an
+            // error reply when returned), and the script continues
+            let table = lua_ctx.create_table()?;
+            table.set("err", formatted_error)?;
+            Ok(LuaValue::Table(table))
         } else {
             // redis.call: Abort script execution immediately
             Err(mlua::Error::RuntimeError(format!("REDIS_CALL_ABORT:{}", formatted_error)))
